@@ -230,12 +230,18 @@ class Ctx:
     """Collects what one case did: labels, non-triviality, a compact
     descriptor and (optionally) arrays for the replay file."""
 
-    def __init__(self):
+    def __init__(self, d=None):
         self.labels = []
         self._nontrivial = False
         self.desc = {}
         self.arrays = {}
         self.sig_attrs = {}
+        # draw object of the case (decides, reproducibly, on which library
+        # calls the value protocol runs) - None: protocol off
+        self.d = d
+        self.value_protocol = d is not None
+        self._lib_calls = 0
+        self.protocol_runs = 0
 
     def label(self, *labels):
         for lab in labels:
@@ -258,8 +264,21 @@ class Ctx:
         accepted by the predicate ``allow_if``) means the input was refused
         explicitly (Rejected); any other exception is a violation of
         ``clause``."""
+        self._lib_calls += 1
+        turn = None
+        if self.value_protocol and self.d is not None:
+            # one library call in four, chosen by what has been drawn so far
+            # (the same under replay)
+            key = len(self.d.choices) + self._lib_calls
+            if key % 4 == 0:
+                turn = key // 4
+        if turn is not None:
+            state = np.random.get_state()
         try:
-            return fn(*args, **kwargs)
+            result = fn(*args, **kwargs)
+            if turn is not None:
+                self._value_protocol(fn, args, kwargs, state, turn)
+            return result
         except (Violation, Rejected, Borderline):
             raise
         except allow as e:  # noqa
@@ -271,6 +290,38 @@ class Ctx:
             raise Violation(
                 clause, f'{name} raised {type(e).__name__}: '
                         f'{_short(str(e), 300)}', exc=type(e).__name__)
+
+
+def _value_protocol(self, fn, args, kwargs, state, turn):
+    """results are a function of the argument values (pbv.valueproto): a
+    caller's array refilled in place must give what a fresh array with the
+    same content gives - whatever the property, a stale or aliased result is
+    not the documented function of the input"""
+    from pbv import valueproto as vp
+    passed, seen = [], set()
+    vp.reachable_arrays(args, passed, seen)
+    vp.reachable_arrays(kwargs, passed, seen)
+    for cell in (getattr(fn, '__closure__', None) or ()):
+        try:
+            vp.reachable_arrays(cell.cell_contents, passed, seen)
+        except ValueError:
+            pass
+    if not passed:
+        return
+    after = np.random.get_state()
+    try:
+        detail = vp.refilled_buffer(fn, args, kwargs, passed, state, turn)
+    finally:
+        np.random.set_state(after)
+    if detail is None:
+        return
+    self.protocol_runs += 1
+    if detail:
+        raise Violation('result-depends-on-array-identity-not-content',
+                        f'{vp.entry_name(fn)}: {detail}', entry=vp.entry_name(fn))
+
+
+Ctx._value_protocol = _value_protocol
 
 
 def jsonable(x):
